@@ -116,7 +116,21 @@ def run_shard(ctx):
             words = lex.duration_words(lang)
             conv = lex.word_group(lang, 'conversion_group')
             r = rng.random()
-            if r < 0.35:
+            if r < 0.04:
+                # many terms on one line (each literal part needs its own rewrite): + - and juxtaposition, 8..40 parts
+                n = rng.choice([8, 12, 15, 16, 17, 18, 20, 24, 31, 32, 33, 40])
+                how = rng.choice(['+', '-', 'juxt'])
+                parts = []
+                want = 0
+                for k_ in range(n):
+                    u = rng.choice(['hour', 'minute', 'second', 'day'])
+                    c_ = rng.choice([1, 2, 15, 30, 45, 90])
+                    parts.append('%d %s' % (c_, rng.choice(words[u])))
+                    v = part_seconds(c_, u)
+                    want = v if k_ == 0 else (want - v if how == '-' else want + v)
+                text = (' %s ' % how).join(parts) if how != 'juxt' else ' '.join(parts)
+                cls = 'long-' + {'+': 'sum', '-': 'difference', 'juxt': 'run'}[how]
+            elif r < 0.35:
                 text, secs = gen_run(rng, words)
                 cls = 'run'
                 want = secs
